@@ -408,7 +408,6 @@ common::register! {
     q_sdes_1x1 = sdes::<_, 1, 1, 536> => 3,
     q_sdes_2x1 = sdes::<_, 2, 1, 800> => 4,
     q_sdes_1x2 = sdes::<_, 1, 2, 800> => 4,
-    t_sdes_31x0 = sdes::<_, 31, 0, 516> => 33,
     t_sdes_32x0 = sdes::<_, 32, 0, 520> => 34,
     q_tfb_pli = fb_pli::<_, true> => 2,
     q_pfb_pli = fb_pli::<_, false> => 2,
